@@ -23,6 +23,7 @@ EXPLANATION = (
     'per-producer order and the capacity bound as history properties are NOT decided.')
 EXPLANATION += ' Added after the seeded-change rounds: ' + 'D5: the bounded-queue wake-up predicate is downward closed (shared with C02); D7: every ordering comparison of a counter difference (tail - head, ticket - capacity; followed through locals and lambda captures) is evaluated in a signed type.'
 EXPLANATION += ' Added in the third session (round-3 seeds and the findings they led to): ' + 'D1 also: a claimed ticket is never handed back by decrementing its counter (violated by the aborted pop: known finding); D3 also: every consumed ticket - item or invalid entry - goes through the pop finalizer, pop() never writes head_counter itself, a page pointer taken from head_page / tail_page is dereferenced only after is_valid_page(); D6 also: infinite_capacity is a huge positive constant (witness).'
+EXPLANATION += ' Added later in the fourth round: ' + 'D6 also: the capacity tests of concurrent_bounded_queue (try_push, blocking push) count the way size() does - their condition depends on n_invalid_entries (violated on the pinned tree: known findings).'
 ASSUMPTIONS = ['raii_guard / try_call idiom model (checked in C03-D5)', 'instantiations: concurrent_queue<int|string>, concurrent_bounded_queue<int|string>']
 ND = ['linearizability', 'per-producer FIFO order', 'capacity bound as a history property']
 LOCKCLS = lambda c: c.endswith('scoped_lock')   # noqa: E731
@@ -36,6 +37,7 @@ def run(facts, rep):
     d1_tickets_never_handed_back(facts, rep)
     d4_pages(facts, rep)
     d7_signed_sizes(facts, rep)
+    d6_fullness_counts_what_size_counts(facts, rep)
     # D5 bounded-queue wake-ups: the rules live in C02 (D4/D5); the predicate rule is repeated here because a blocked push/pop
     # that is never woken is also a C09 failure
     from rules.C02 import bounded_queue_predicate
@@ -408,3 +410,70 @@ def d7_signed_sizes(facts, rep):
                    'capacity) wraps to a huge value and the queue is reported full or non-empty in the wrong state'
                    % ('unsigned %s-bit' % ot[0] if ot else 'a non-integer type'), ln=node['ln'], key_extra=str(node['ln']))
     rep.floor('D7', 4, 'signed comparisons of counter differences')
+
+
+def d6_fullness_counts_what_size_counts(facts, rep):
+    """"the number of stored items never exceeds the capacity, try_push fails only when it was full": size() and empty() subtract the
+    invalid entries (tickets whose push was aborted or threw: they hold no item and are skipped by the next consumer that reaches
+    them) from tail - head.  The capacity tests have to count the same way (sibling agreement): a function of
+    concurrent_bounded_queue that compares ticket distances with my_capacity also reads n_invalid_entries.  Otherwise aborted
+    pushes keep occupying capacity: try_push reports "full" - and push blocks - on a queue that size() and empty() call empty."""
+    from engine.rules import Summaries
+    summ = Summaries(facts, max_depth=3)
+    BQ = 'tbb::detail::d2::concurrent_bounded_queue'
+
+    def reads_invalid(g, pos, e):
+        return isinstance(e, int) and any(g.nodes[x].get('k') == 'member' and g.nodes[x].get('n') == 'n_invalid_entries' for x in g.subtree(e))
+    n = 0
+    for fn in sorted(facts.fns.values(), key=lambda f: f.q):
+        owner = fn
+        if fn.kind == 'lambda':
+            owner = facts.fns.get(fn.d.get('lparent')) or fn
+        if (owner.cls or '') != BQ or owner.p.split('::')[-1] in ('set_capacity', 'capacity', '(ctor)'):
+            continue
+        uses = False
+        for b, blk in fn.blocks.items():
+            t = blk.get('term')
+            if t and 'c' in t and any(fn.nodes[x].get('k') == 'member' and fn.nodes[x].get('n') == 'my_capacity' for x in fn.subtree(t['c'])):
+                uses = True
+        # `target = ticket - my_capacity` computed first and compared later
+        defs_cap = [nd for nd in fn.nodes if nd and nd.get('k') == 'decl' and any(
+            v.get('init', -1) >= 0 and any(fn.nodes[x].get('n') == 'my_capacity' for x in fn.subtree(v['init'])) for v in nd['vars'])]
+        if not uses and not defs_cap:
+            continue
+        if fn.kind == 'lambda':
+            continue            # the predicate lambdas are part of their function (checked through the owner)
+        n += 1
+        # the capacity comparison itself (its condition and the values that flow into it through locals) depends on the count
+        defs = Defs(fn)
+        roots = []
+        for b, blk in fn.blocks.items():
+            t = blk.get('term')
+            if t and 'c' in t and (any(fn.nodes[x].get('n') == 'my_capacity' for x in fn.subtree(t['c'])) or defs_cap):
+                roots.append(t['c'])
+        seen_nodes = set()
+        work = list(roots)
+        ok = False
+        while work and not ok:
+            r = work.pop()
+            for x in fn.subtree(r):
+                if x in seen_nodes:
+                    continue
+                seen_nodes.add(x)
+                nd = fn.nodes[x]
+                if nd.get('k') == 'member' and nd.get('n') == 'n_invalid_entries':
+                    ok = True
+                elif nd.get('k') == 'call':
+                    g = facts.fns.get(nd.get('fn'))
+                    if g is not None and (g.cls or '').startswith('tbb::detail::d2::concurrent_queue_rep') and summ.may(g, 'reads-n_invalid_entries', reads_invalid):
+                        ok = True
+                elif nd.get('k') == 'var' and nd.get('local'):
+                    for dn, val in (defs.values(x) or []):
+                        if val is not None:
+                            work.append(val)
+        rep.ob('D6', 'K7', fn, 'a capacity test of the bounded queue counts the way size() does (invalid entries are not items)', ok,
+               'the test compares ticket distances with my_capacity without looking at n_invalid_entries: after an aborted (or throwing) push '
+               'the queue reports "full" although size() is below the capacity - try_push fails and push blocks on an empty queue',
+               key_extra='fullness')
+    if n < 2:
+        raise AnalysisBroken('concurrent_bounded_queue: functions comparing with my_capacity: %d (expected internal_push, internal_push_if_not_full)' % n)
